@@ -19,7 +19,7 @@ import (
 func init() {
 	ev.Register(&ev.Spec{
 		ID: "C01", Level: "exploration",
-		Rule:    "three views must agree for every frame: the values a caller passed, the bytes on the wire as parsed by an independent reference codec (internal/wire, written from the protocol documents), and the values the receiving side reconstructed. (1) real client <-> tap <-> real server over a recording backend at versions 0..7: for every client method the request frame must decode (strictly, no trailing bytes) to exactly the arguments in the specified field order and be byte-identical to the reference encoding, the reply frame must be byte-identical to the reference encoding of the backend's results (generated over full integer ranges, arbitrary-byte strings, lists), and the caller must get those results back; (2) raw peer -> real server -> recording backend: every one of the 2^14 AttrMask and 2^9 SetAttrMask patterns, strings of 0/1/255/256/4095/32767/32768/65535 arbitrary bytes in every string position, walks of 0/1/2/16/200 components, payloads around the msize bound, sentinels NOTAG/NOFID/NoUID; the only rewriting allowed is permissions & 07777 and whole directory entries within the requested count. Non-trivial: not all fields zero/empty; distinct by (type, shape class).",
+		Rule:    "three views must agree for every frame: the values a caller passed, the bytes on the wire as parsed by an independent reference codec (internal/wire, written from the protocol documents), and the values the receiving side reconstructed. (1) real client <-> tap <-> real server over a recording backend at versions 0..7: for every client method the request frame must decode (strictly, no trailing bytes) to exactly the arguments in the specified field order and be byte-identical to the reference encoding, the reply frame must be byte-identical to the reference encoding of the backend's results (generated over full integer ranges, arbitrary-byte strings, lists), and the caller must get those results back; (2) raw peer -> real server -> recording backend: every one of the 2^14 AttrMask and 2^9 SetAttrMask patterns, strings of 0/1/255/256/4095/32767/32768/65535 arbitrary bytes in every string position, walks of 0/1/2/16/200 components, payloads around the msize bound, sentinels NOTAG/NOFID/NoUID; the string and walk sections run over net.Pipe and over an AF_UNIX socket pair (vectorised receive path), with a ~1 MB Twalk that no socket buffer holds; the only rewriting allowed is permissions & 07777 and whole directory entries within the requested count. Non-trivial: not all fields zero/empty; distinct by (type, shape class).",
 		Assume:  []string{"internal/wire is the reference (no code shared with p9)", "checks/tap.go wMask/wSetMask/wAttr state the field-to-bit mapping from Linux 9p.h"},
 		Shards:  shards(8, 16),
 		Timeout: timeout(8*time.Minute, 60*time.Minute),
